@@ -39,6 +39,7 @@ type lfCase struct {
 	Probe    lfProbe `json:"probe"`
 	Shape    string  `json:"shape"`
 	Same     bool    `json:"same"`
+	Decided  *bool   `json:"decided"`
 }
 
 // what the caller supplies for document variant d
@@ -562,7 +563,7 @@ func longformReplay(args []string) {
 
 			// every single-character change of the DID is rejected
 			if c.Call == 1 {
-				alphabet := "Ab0_-:=.#/ "
+				alphabet := "Ab0_-:=.#/ ?&;%"
 				for i := 0; i < len(did); i++ {
 					for _, ch := range alphabet {
 						if byte(ch) == did[i] {
@@ -570,6 +571,22 @@ func longformReplay(args []string) {
 						}
 
 						mut := did[:i] + string(ch) + did[i+1:]
+						if i == len(did)-1 {
+							// ... and every character appended
+							appended := did + string(ch)
+							singleChar++
+
+							if r, e := handler.ResolveDocument(appended); e == nil {
+								fail("single-character-change-resolves", fmt.Sprintf("%q appended", ch), "rejected", r.Document.ID())
+								return
+							}
+
+							if _, e := vdr.Read(appended); e == nil {
+								fail("single-character-change-resolves", fmt.Sprintf("VDR.Read, %q appended", ch), "rejected", appended)
+								return
+							}
+						}
+
 						singleChar++
 
 						if r, e := handler.ResolveDocument(mut); e == nil {
@@ -759,6 +776,10 @@ func longformReplay(args []string) {
 				stateB64 = enc(canon)
 			case "empty":
 				stateB64 = ""
+			case "typeless":
+				delete(g, "type")
+				canon, _ := refJCS(g)
+				stateB64 = enc(canon)
 			case "type_member_added":
 				g["type"] = "create"
 				canon, _ := refJCS(g)
@@ -794,6 +815,19 @@ func longformReplay(args []string) {
 			_, e2 := vdr.Read(did)
 
 			col.sample(map[string]interface{}{"case": c, "did": did, "resolved": e1 == nil})
+
+			if c.Decided != nil && !*c.Decided {
+				// the statement leaves open whether this DID resolves; a document that comes back carries the DID asked for
+				if e1 == nil && r1.Document.ID() != did {
+					fail("document-id", "enc="+c.Probe.Enc, did, r1.Document.ID())
+				}
+
+				if e1 != nil {
+					col.beyond("resolve-typeless", "a long-form DID whose initial state has no type member does not resolve", c, "resolves", e1.Error())
+				}
+
+				return
+			}
 
 			if (e1 == nil) != c.Resolves || (e2 == nil) != c.Resolves {
 				fail("resolve-verdict", fmt.Sprintf("ResolveDocument: %v / VDR.Read: %v", e1, e2), map[string]interface{}{"resolves": c.Resolves},
